@@ -1,7 +1,130 @@
-"""Supporting static facts recomputed from the goto binaries on every run
-(symbol table whitelist, call-graph facts).  Filled in per property."""
+"""Supporting static facts, recomputed on every run from goto binaries built
+from /repo's current sources: the call graph (who can reach the parser and
+the file system) and the table of static-lifetime objects of the library.
+They are mechanical facts about the linked program, not contracts; they
+complement the frame conditions."""
+import glob
+import json
+import os
+import re
+import shutil
+import subprocess
+import tempfile
 
-CHECKS = {}
+from . import pipeline
+
+_cache = {}
+
+
+def _build():
+    if "dir" in _cache:
+        return _cache
+    try:
+        return _build2()
+    finally:
+        shutil.rmtree(_cache.get("dir", "/nonexistent"), ignore_errors=True)
+
+
+def _build2():
+    work = tempfile.mkdtemp(prefix="verif.static.", dir=os.environ.get("VERIF_SCRATCH", "/var/tmp"))
+    _cache["dir"] = work
+    gbs = []
+    for src in sorted(glob.glob(os.path.join(pipeline.REPO, "lib", "*.c"))):
+        gb = os.path.join(work, os.path.basename(src) + ".gb")
+        p = subprocess.run(["goto-cc", "-c", "-D__NO_CTYPE", "-D_GNU_SOURCE",
+                            "-I" + os.path.join(pipeline.REPO, "include"),
+                            "-I" + os.path.join(pipeline.REPO, "lib"), src, "-o", gb],
+                           stdout=subprocess.PIPE, stderr=subprocess.STDOUT)
+        if p.returncode != 0:
+            _cache["error"] = "goto-cc failed on %s: %s" % (src, p.stdout.decode()[-500:])
+            return _cache
+        gbs.append(gb)
+    lib = os.path.join(work, "lib.gb")
+    p = subprocess.run(["goto-cc", "--no-library", "-shared"] + gbs + ["-o", lib],
+                       stdout=subprocess.PIPE, stderr=subprocess.STDOUT)
+    if p.returncode != 0:
+        _cache["error"] = "link failed: " + p.stdout.decode()[-500:]
+        return _cache
+    out = subprocess.run(["goto-instrument", "--call-graph", lib], stdout=subprocess.PIPE,
+                         stderr=subprocess.DEVNULL).stdout.decode()
+    edges = set()
+    for l in out.splitlines():
+        m = re.match(r"^(\S+) -> (\S+)$", l.strip())
+        if m:
+            edges.add((m.group(1), m.group(2)))
+    _cache["edges"] = edges
+    out = subprocess.run(["goto-instrument", "--show-symbol-table", "--json-ui", lib],
+                         stdout=subprocess.PIPE, stderr=subprocess.DEVNULL).stdout.decode()
+    statics = set()
+    try:
+        for item in json.loads(out):
+            if isinstance(item, dict) and "symbolTable" in item:
+                for name, s in item["symbolTable"].items():
+                    if s.get("isStaticLifetime") and not s.get("isType") and not name.startswith("__CPROVER") \
+                            and not s.get("isExtern") and "$" not in name.split("::")[-1]:
+                        statics.add(name)
+    except Exception as e:
+        _cache["error"] = "symbol table: %r" % e
+    _cache["statics"] = statics
+    # functions whose address is taken (could be called through a pointer)
+    out = subprocess.run(["goto-instrument", "--show-goto-functions", lib],
+                         stdout=subprocess.PIPE, stderr=subprocess.DEVNULL).stdout.decode()
+    _cache["addr_taken"] = set(re.findall(r"address_of\((\w+)\)", out))
+    shutil.rmtree(work, ignore_errors=True)
+    return _cache
+
+
+def callers(fn):
+    return sorted({a for a, b in _build().get("edges", set()) if b == fn})
+
+
+def fact(name, description, ok, detail=""):
+    return dict(name=name, description=description + (" [" + detail + "]" if detail else ""),
+                status="SUCCESS" if ok else "FAILURE")
+
+
+def choke_point(tier):
+    c = _build()
+    if "error" in c:
+        return [dict(name="static.build", description=c["error"], status="UNDECIDED", reason=c["error"])]
+    out = []
+    cr = callers("read_file")
+    out.append(fact("static.callers.read_file",
+                    "the parser read_file is called only from read_file_with_callback and its address is never taken",
+                    cr == ["read_file_with_callback"] and "read_file" not in c["addr_taken"], "callers: %s" % cr))
+    for fn, allowed in (("fopen", {"read_file", "econf_writeFile"}), ("getline", {"read_file"}),
+                        ("open", set()), ("fdopen", set()), ("freopen", set()), ("fread", set()),
+                        ("fgets", set()), ("read", set()), ("mmap", set())):
+        cs = set(callers(fn))
+        out.append(fact("static.callers." + fn,
+                        "%s is called only from %s" % (fn, sorted(allowed) or "nowhere"),
+                        cs <= allowed, "callers: %s" % sorted(cs)))
+    return out
+
+
+WHITELIST = {
+    # documented process-wide state (property C18 exempts exactly these)
+    "last_scanned_line_nr", "last_scanned_filename",
+    "conf_dirs", "conf_count",
+    "file_owner_set", "file_owner", "file_group_set", "file_group", "file_permissions_set",
+    "file_perms_file", "file_perms_dir", "allow_follow_symlinks",
+    # read-only message table and the buffer for out-of-range codes
+    "messages", "econf_errString::1::1::buffer",
+}
+
+
+def statics(tier):
+    c = _build()
+    if "error" in c:
+        return [dict(name="static.build", description=c["error"], status="UNDECIDED", reason=c["error"])]
+    extra = sorted(c["statics"] - WHITELIST)
+    return [fact("static.statics.whitelist",
+                 "the linked library has no static-lifetime object (file-scope or function-local static) "
+                 "outside the documented process-wide ones",
+                 not extra, "unexpected: %s; found: %s" % (extra, sorted(c["statics"])))]
+
+
+CHECKS = {"C06": [choke_point], "C16": [choke_point], "C18": [statics]}
 
 
 def run(pid, tier):
